@@ -15,4 +15,5 @@ Extraction "model.ml"
   read_vtt write_vtt parse_text_vtt vtt_line_simple
   convert_srt_vtt convert_vtt_srt
   ttx_feed ttx_parse_row
-  mux_ok mux_ok_auto cues_of events pes_ok pes_units tmin tmax zero_or.
+  mux_ok mux_ok_auto cues_of events pes_ok pes_units tmin tmax zero_or
+  inst_mux_ok is_our_header body_ok rowspec_ok is_our_row benign neutral_unit dead_ok is_terminator unselected_ok row_cells.
